@@ -192,20 +192,24 @@ def _pch_dir(cfg, flags=()):
     ok = os.path.join(d, "ok")
     if os.path.exists(ok):
         return d
-    shutil.rmtree(d, ignore_errors=True)
+    # Safe against concurrent builders (threads and other processes): never delete the directory,
+    # write every file under a private temporary name and rename it into place atomically.
     os.makedirs(d, exist_ok=True)
-    with open(os.path.join(d, "all.hh"), "w") as f:
-        f.write(_all_hh_text())
+    uniq = "%d.%d" % (os.getpid(), threading.get_ident())
+    hh = os.path.join(d, "all.hh")
+    text = _all_hh_text()
+    if not os.path.exists(hh) or open(hh).read() != text:
+        with open(hh + ".tmp." + uniq, "w") as f:
+            f.write(text)
+        os.rename(hh + ".tmp." + uniq, hh)
     base = [cfg.cxx, "-std=" + cfg.std, "-w", "-I" + AU_INC, "-I" + HARNESS] + list(flags)
-    if cfg.is_clang:
-        cmd = base + ["-x", "c++-header", os.path.join(d, "all.hh"), "-o",
-                      os.path.join(d, "all.hh.pch")]
-    else:
-        cmd = base + ["-x", "c++-header", os.path.join(d, "all.hh"), "-o",
-                      os.path.join(d, "all.hh.gch")]
+    final = hh + (".pch" if cfg.is_clang else ".gch")
+    tmp = final + ".tmp." + uniq
+    cmd = base + ["-x", "c++-header", hh, "-o", tmp]
     rc, out, err = sh(cmd)
     if rc != 0:
         raise InfraError("PCH build failed for %s %s:\n%s" % (cfg, flags, err[-3000:]))
+    os.rename(tmp, final)
     open(os.path.join(d, "tree"), "w").write(th())
     open(ok, "w").write("ok")
     return d
